@@ -81,12 +81,12 @@ pub struct AncillaryIter<'a> {
 }
 
 impl<'a> AncillaryIter<'a> {
-    /// Create [`AncillaryIter`] with the given buffer.
+    /// Create [`AncillaryIter`] with the given buffer. A buffer that is too
+    /// short to hold a message, e.g. an empty one, yields no messages.
     ///
     /// # Panics
     ///
-    /// This function will panic if the buffer is too short or not properly
-    /// aligned.
+    /// This function will panic if the buffer is not properly aligned.
     ///
     /// # Safety
     ///
@@ -129,6 +129,9 @@ impl<'a, B: IoBufMut + ?Sized> AncillaryBuilder<'a, B> {
         // SAFETY: always safe to make it empty.
         unsafe { buffer.set_len(0) };
         let slice = buffer.ensure_init();
+        #[allow(clippy::unnecessary_cast)]
+        let min_len = unsafe { sys::CMSG_SPACE(0) } as usize;
+        assert!(slice.len() >= min_len, "buffer too short");
         let inner = sys::CMsgIter::new(slice.as_ptr(), slice.len());
         Self { inner, buffer }
     }
